@@ -973,13 +973,14 @@ fn supervisor(path: &str) {
     let exe = std::env::current_exe().unwrap();
     let mut i = 0;
     let mut abnormal = 0;
+    let mut hangs = 0;
     let out = std::io::stdout();
     while i < cases.len() {
-        if abnormal >= 25 {
+        if abnormal >= 25 || hangs >= 3 {
             // the tree is badly broken: enough witnesses, do not restart a worker per case
             let mut o = out.lock();
             while i < cases.len() {
-                writeln!(o, "SKIPPED after 25 abnormal worker exits").unwrap();
+                writeln!(o, "SKIPPED after 25 abnormal worker exits / 3 hangs").unwrap();
                 i += 1;
             }
             break;
@@ -1014,7 +1015,10 @@ fn supervisor(path: &str) {
         });
         while i < cases.len() {
             let sent = writeln!(cin, "{}", cases[i]).is_ok() && cin.flush().is_ok();
-            let got = if sent { rx.recv_timeout(std::time::Duration::from_secs(20)) } else { Ok(None) };
+            // budget: generous and proportional to the input (rendering a 130 kB packet through every
+            // Debug impl takes seconds on a loaded machine); a real hang exceeds any budget
+            let budget = 60 + (cases[i].len() as u64) / 1000;
+            let got = if sent { rx.recv_timeout(std::time::Duration::from_secs(budget)) } else { Ok(None) };
             match got {
                 Ok(Some(resp)) => {
                     let mut o = out.lock();
@@ -1038,7 +1042,8 @@ fn supervisor(path: &str) {
                     let _ = child.kill();
                     let _ = child.wait();
                     let mut o = out.lock();
-                    writeln!(o, "HANG no answer within 20s").unwrap();
+                    writeln!(o, "HANG no answer within {}s", budget).unwrap();
+                    hangs += 1;
                     i += 1;
                     abnormal += 1;
                     break;
